@@ -86,3 +86,25 @@ pub open spec fn is_stale(trackers: Map<UUID, TrackerRow>, height: u32, u: UUID)
 pub open spec fn is_stale_penalty(trackers: Map<UUID, TrackerRow>, height: u32, tx: Transaction) -> bool {
     exists|u: UUID| #[trigger] is_stale(trackers, height, u) && tx == trackers[u].penalty_tx
 }
+
+// the ids of the transactions of a connected block
+pub open spec fn block_txids(txdata: Seq<(usize, Transaction)>) -> Set<Txid> {
+    txdata.map_values(|p: (usize, Transaction)| txid_spec(p.1)).to_set()
+}
+
+pub proof fn lemma_block_txids(txdata: Seq<(usize, Transaction)>)
+    ensures forall|t: Txid| block_txids(txdata).contains(t) <==> exists|i: int| 0 <= i < txdata.len() && txid_spec(#[trigger] txdata[i].1) == t,
+{
+    let m = txdata.map_values(|p: (usize, Transaction)| txid_spec(p.1));
+    assert forall|t: Txid| block_txids(txdata).contains(t) <==> exists|i: int| 0 <= i < txdata.len() && txid_spec(#[trigger] txdata[i].1) == t by {
+        if block_txids(txdata).contains(t) {
+            let i = choose|i: int| 0 <= i < m.len() && m[i] == t;
+            assert(txid_spec(txdata[i].1) == t);
+        }
+        if exists|i: int| 0 <= i < txdata.len() && txid_spec(#[trigger] txdata[i].1) == t {
+            let i = choose|i: int| 0 <= i < txdata.len() && txid_spec(#[trigger] txdata[i].1) == t;
+            assert(m[i] == t);
+            assert(m.contains(t));
+        }
+    }
+}
